@@ -15,7 +15,10 @@ N / order / NFFT and never counted as an unbounded proof.
                                   psd(x e^{2 pi i m n/NFFT})[k] = psd(x)[(k-m) mod NFFT];  psd(conj x)[k] = psd(x)[-k mod NFFT];
                                   psd(conj(x[::-1])) = psd(x);  real data: one-sided = 2 * first half of the two-sided estimate of the
                                   same samples declared complex
- Multitaper (tapers from the C routine), MUSIC / EV (SVD) and ARMA / MA (long Marple recursion) classes: not reached, see META.
+ mtm.<method>.<transform>.NFFT<n>  MultiTapering / pmtm ('eigen', 'unity') end to end with user-supplied SYMBOLIC real tapers and eigenvalues (the e=, v=
+                                arguments of the real API): shift, mirror and the real-data clause for ANY real tapers; time reversal for tapers with the
+                                Slepian symmetry (assumed: C18's statement)
+ MUSIC / EV (SVD), ARMA / MA (long Marple recursion) classes and the adaptive multitaper method (iterative): not reached, see META.
 """
 from fractions import Fraction
 from pyvc import values as V
@@ -32,7 +35,8 @@ META = {
                   "spectrum.periodogram.speriodogram", "spectrum.correlog.CORRELOGRAMPSD",
                   "spectrum.yulewalker.pyule.__call__", "spectrum.burg.pburg.__call__", "spectrum.covar.pcovar.__call__",
                   "spectrum.modcovar.pmodcovar.__call__", "spectrum.minvar.pminvar.__call__", "spectrum.correlog.pcorrelogram.__call__",
-                  "spectrum.periodogram.Periodogram.__call__", "spectrum.psd.Spectrum", "spectrum.psd.ParametricSpectrum"],
+                  "spectrum.periodogram.Periodogram.__call__", "spectrum.mtm.MultiTapering.__call__", "spectrum.mtm.pmtm",
+                  "spectrum.psd.Spectrum", "spectrum.psd.ParametricSpectrum"],
     "assumptions": ["A-REAL", "every obligation is bounded in N, order and NFFT (stated in the task name); all data values at those sizes",
                     "generic path: comparisons of data-dependent quantities inside the code (e.g. P <= 0 -> raise) take the branch that does "
                     "not raise; the identities hold wherever no divisor vanishes",
@@ -41,7 +45,9 @@ META = {
                     "modulation angle: exp(i theta) = ((1-t^2) + 2 t i)/(1+t^2) covers every theta except pi",
                     "Periodogram is run with window='rectangular' (the default Hann window needs cos(), which the exact domain does not carry; "
                     "window symmetry, which time-reversal invariance needs, is C20's subject)",
-                    "not reached, not claimed: MultiTapering (tapers come from the C routine; their symmetry is C18), pev / pmusic (SVD), "
+                    "MultiTapering is run with symbolic tapers passed through its e= / v= arguments (methods 'eigen' and 'unity'); for time reversal the tapers "
+                    "carry the symmetry C18 states (even symmetric, odd antisymmetric) as an assumption; the tapers actually produced by the C routine are C18's subject",
+                    "not reached, not claimed: MultiTapering method 'adapt' (iterative weights), pev / pmusic (SVD), "
                     "pma / parma (arcovar_marple inside arma_estimate swells beyond reach at any useful size), odd NFFT other than 3, "
                     "NFFT larger than 6"],
     "trusted_base": ["sympy.polys"],
@@ -92,12 +98,13 @@ EST = {
     # name: (call, names of the outputs, kinds: "seq1" coefficients a_1.. / k_1.. (index j -> factor u^(j+1)), "seq0" lags r_0.. (u^j), "inv" invariant scalar)
     "CORRELATION.biased": (lambda I, x, p: (I.call_qual("spectrum.correlation.CORRELATION", x, None, p, "biased"),), ("r",), ("seq0",)),
     "CORRELATION.unbiased": (lambda I, x, p: (I.call_qual("spectrum.correlation.CORRELATION", x, None, p, "unbiased"),), ("r",), ("seq0",)),
+    "CORRELATION.coeff": (lambda I, x, p: (I.call_qual("spectrum.correlation.CORRELATION", x, None, p, "coeff"),), ("r",), ("seq0",)),
     "aryule": (lambda I, x, p: I.call_qual("spectrum.yulewalker.aryule", x, p), ("ar", "P", "reflection"), ("seq1", "inv", "seq1")),
     "arburg": (lambda I, x, p: I.call_qual("spectrum.burg.arburg", x, p), ("ar", "rho", "reflection"), ("seq1", "inv", "seq1")),
     "arcovar": (lambda I, x, p: I.call_qual("spectrum.covar.arcovar", x, p), ("ar", "e"), ("seq1", "inv")),
     "modcovar": (lambda I, x, p: I.call_qual("spectrum.modcovar.modcovar", x, p), ("ar", "e"), ("seq1", "inv")),
 }
-REV_INVARIANT = {"CORRELATION.biased", "CORRELATION.unbiased", "aryule", "arburg", "modcovar"}
+REV_INVARIANT = {"CORRELATION.biased", "CORRELATION.unbiased", "CORRELATION.coeff", "aryule", "arburg", "modcovar"}
 
 
 def core_task(est, transform, N, p):
@@ -154,6 +161,7 @@ def core_task(est, transform, N, p):
                 E.eq("%s:unchanged" % nm, [V.Cx.of(v) for v in nl], [V.Cx.of(v) for v in bl])
     return Task("core.%s.%s.N%d.p%d" % (est, transform, N, p), run, kind="bounded", prerun=True, timeout=120,
                 functions=["spectrum." + {"CORRELATION.biased": "correlation.CORRELATION", "CORRELATION.unbiased": "correlation.CORRELATION",
+                                          "CORRELATION.coeff": "correlation.CORRELATION",
                                           "aryule": "yulewalker.aryule", "arburg": "burg.arburg", "arcovar": "covar.arcovar",
                                           "modcovar": "modcovar.modcovar"}[est]])
 
@@ -314,9 +322,85 @@ def glue_task(cname, transform, p, NFFT, N=4):
     return Task("glue.%s.%s.p%d.NFFT%d" % (cname, transform, p, NFFT), run, kind="bounded", prerun=True, timeout=150, functions=[q + ".__call__"])
 
 
+def mtm_task(transform, method, NFFT, k=2):
+    """MultiTapering / pmtm with user-supplied (symbolic) real tapers and eigenvalues: no estimator stub, the real code end to end.
+    mod / conj / real hold for ANY real tapers; rev needs the Slepian symmetry (even tapers symmetric, odd ones antisymmetric:
+    C18's statement, assumed here)"""
+    N = min(4, NFFT)
+
+    def run(tc):
+        cx = transform != "real"
+        half = (N + 1) // 2
+        if transform == "rev":
+            tn = ["v%d_%d" % (n, j) for j in range(k) for n in range(half)]
+        else:
+            tn = ["v%d_%d" % (n, j) for j in range(k) for n in range(N)]
+        names = data_names(N, cx) + sqrt_names(NFFT) + ["pi"] + tn + ["e%d" % j for j in range(k)]
+        dom, I = e3_interp(tc, names)
+        E = E3(tc, dom, "c04mtm", {"transform": transform, "method": method, "NFFT": NFFT, "k": k, "N": N}, tc.seed)
+        x = syms(dom, N, cx)
+
+        def taper(n, j):
+            if transform != "rev":
+                return dom.sym("v%d_%d" % (n, j))
+            m = min(n, N - 1 - n)
+            if j % 2 == 1 and N % 2 == 1 and n == N // 2:
+                return Fraction(0)          # an antisymmetric taper vanishes at the centre sample
+            v = dom.sym("v%d_%d" % (m, j))
+            return v if (j % 2 == 0 or n < N - 1 - n) else -v
+        vv = Arr2(N, k, rows=[[taper(n, j) for j in range(k)] for n in range(N)], dtype="float")
+        ee = Arr.from_items([dom.sym("e%d" % j) for j in range(k)], dtype="float")
+
+        def go(data_list, declared_complex=False):
+            data = cx_arr(data_list) if (cx or declared_complex) else Arr.from_items(list(data_list), dtype="float")
+
+            def thunk(I_):
+                o = I_.call(I_.class_ref("spectrum.mtm.MultiTapering"), [data], {"NFFT": NFFT, "e": ee, "v": vv, "method": method})
+                I_.call(o, [], {})
+                return I_.getattr(o, "psd")
+            v = E.run(I, thunk)
+            return None if v is None else _lst(v)
+
+        if transform == "real":
+            one, two = go(list(x)), go([V.Cx.of(v) for v in x], declared_complex=True)
+            if one is None or two is None:
+                return
+            E.ok("real:one-sided-length", len(one) == (NFFT // 2 + 1 if NFFT % 2 == 0 else (NFFT + 1) // 2), "length %d" % len(one))
+            E.ok("complex-declared:two-sided-length", len(two) == NFFT, "length %d" % len(two))
+            if len(one) <= len(two):
+                E.eq("one-sided=2*first-half-of-two-sided", one, [2 * v for v in two[:len(one)]])
+            return
+        base = go([V.Cx.of(v) for v in x])
+        if base is None:
+            return
+        E.ok("two-sided-length=NFFT", len(base) == NFFT, "length %d" % len(base))
+        if len(base) != NFFT:
+            return
+        if transform == "mod":
+            for m in range(1, NFFT):
+                new = go(t_mod(dom.cis(m, NFFT))(x))
+                if new is None:
+                    return
+                E.eq("shift-by-%d-bins:psd'[k]=psd[(k-%d) mod NFFT]" % (m, m), new, [base[(kk - m) % NFFT] for kk in range(NFFT)])
+        elif transform == "conj":
+            new = go(t_conj(x))
+            if new is not None:
+                E.eq("conjugate-data:psd'[k]=psd[-k mod NFFT]", new, [base[(-kk) % NFFT] for kk in range(NFFT)])
+        else:
+            new = go(t_rev(x))
+            if new is not None:
+                E.eq("conjugated-time-reversed-data:same-spectrum", new, base)
+    return Task("mtm.%s.%s.NFFT%d" % (method, transform, NFFT), run, kind="bounded", prerun=True, timeout=150,
+                functions=["spectrum.mtm.MultiTapering.__call__", "spectrum.mtm.pmtm"])
+
+
 def tasks(tier):
     ts = []
     th = tier == "thorough"
+    for method in ("eigen", "unity"):
+        for NFFT in ((3, 4) if not th else (3, 4, 6, 8)):
+            for tr in ("mod", "conj", "rev", "real"):
+                ts.append(mtm_task(tr, method, NFFT))
     for est in EST:
         for tr in ("mod", "conj", "rev", "declared"):
             if tr == "rev" and est not in REV_INVARIANT:
